@@ -392,3 +392,8 @@ CHECKS = [
     Check("bad_arguments", judge_bad, strategy=strat_bad, quick=100, thorough=400,
           rule="invalid constructor arguments raise LenaTypeError."),
 ]
+
+
+from .. import covfuzz  # noqa
+CHECKS.append(covfuzz.check(CHECKS, "harness.props.c14", "compose_chain", quick=3000, thorough=100000))
+CHECKS.append(covfuzz.check(CHECKS, "harness.props.c14", "combine", quick=3000, thorough=100000))
